@@ -38,6 +38,7 @@ WBS = [
 ]
 ENTRIES = [None, (0, 0, 0), (0, 1, 1)]   # numeric addressing: sheet 0, column, row (0-based)
 OPS = [('path', i) for i in range(len(WBS))] + [('entry', j) for j in range(len(ENTRIES))] + [('enable',), ('disable',), ('get',), ('write',)]
+OPS_RESAVE = OPS + [('resave',), ('resave',)]
 
 
 def corpus(n, rng):
@@ -86,15 +87,21 @@ def plan(tier, seed):
 
 # ---- (a) histories ---------------------------------------------------------------------------------
 class Model:
-    """sequential model of the facade"""
+    """sequential model of the facade: the text belongs to the settings in force AND to the workbook file as it is when the translation
+    is made; a request without a setter call since the last successful request is answered from what was translated then (the facade
+    does not look at the file again - its documented reading), a request after any setter call reads the file as it is now"""
 
     def __init__(self, paths):
         self.paths = paths
         self.path, self.entry, self.safety = None, None, True
         self.cache = {}
+        self.version = {}          # path index -> 0/1: which of its two contents the file holds now
+        self.dirty, self.last = True, None
 
     def expected(self):
-        key = (self.path, self.entry, self.safety)
+        if not self.dirty and self.last is not None and self.last[0] == 'text':
+            return self.last
+        key = (self.path, self.entry, self.safety, self.version.get(self.path, 0))
         if key not in self.cache:
             from excel2pycl import Parser, Cell
             p = Parser()
@@ -105,7 +112,22 @@ class Model:
             (p.enable_safety_check if self.safety else p.disable_safety_check)()
             o = pipeline.guarded(p.get_translation, 'translate')
             self.cache[key] = ('text', o.value) if o.ok else ('exc', o.exc_name)
-        return self.cache[key]
+        self.last = self.cache[key]
+        self.dirty = self.last[0] != 'text'
+        return self.last
+
+
+def resaved(spec):
+    """the other content of a workbook file: the same sheets with another constant and one more formula"""
+    import copy
+    sp = copy.deepcopy(spec)
+    cells = sp['sheets'][0]['cells']
+    cells['A1'] = (cells.get('A1') if isinstance(cells.get('A1'), (int, float)) and not isinstance(cells.get('A1'), bool) else 0) + 10
+    cells['H9'] = '=SUM(A1:A3)+1'
+    return sp
+
+
+_FILE_VERSION = {}
 
 
 def run_history(hist, paths, model_cache, r, workdir):
@@ -113,9 +135,25 @@ def run_history(hist, paths, model_cache, r, workdir):
     p = Parser()
     m = Model(paths)
     m.cache = model_cache
+    for i_, sp_ in enumerate(WBS):
+        if _FILE_VERSION.get(paths[i_], 0) != 0:
+            wbspec.write(sp_, paths[i_])
+            _FILE_VERSION[paths[i_]] = 0
     setter_since_get, had_get, nontrivial = False, False, False
     state0 = pipeline.interpreter_state()
     for step, op in enumerate(hist):
+        if op[0] == 'resave':
+            # the workbook file of the configured path is saved again with other content (no call into the library)
+            if m.path is not None:
+                v = 1 - m.version.get(m.path, 0)
+                wbspec.write(resaved(WBS[m.path]) if v else WBS[m.path], paths[m.path])
+                m.version[m.path] = v
+                _FILE_VERSION[paths[m.path]] = v
+                r.count('workbook_files_saved_again')
+            continue
+        if op[0] in ('path', 'entry') or (op[0] == 'enable' and not m.safety) or (op[0] == 'disable' and m.safety):
+            # enabling what is enabled is no change of a setting: the facade keeps answering from what it has
+            m.dirty = True
         if op[0] == 'path':
             p.set_excel_file_path(paths[op[1]]); m.path = op[1]; setter_since_get = True
         elif op[0] == 'entry':
@@ -192,6 +230,13 @@ def run_histories(shard, ctx):
         for _ in range(shard['random']):
             n = rng.randrange(4, 11)
             hs.append([rng.choice(OPS) for _ in range(n)] + [rng.choice([('get',), ('write',)])])
+        # the workbook FILE saved again between requests, then a setter that is not the path setter (or none at all) and the next request
+        for _ in range(shard['random']):
+            i_, j_ = rng.randrange(len(WBS)), rng.randrange(len(ENTRIES))
+            mid = rng.choice([[('entry', j_)], [('enable',)], [('disable',)], [('entry', j_), ('enable',)], [], [('path', i_)], [('disable',), ('entry', j_)]])
+            pre = [rng.choice(OPS) for _ in range(rng.randrange(0, 3))]
+            hs.append(pre + [('path', i_), rng.choice([('get',), ('write',)]), ('resave',)] + mid + [rng.choice([('get',), ('write',)])]
+                      + [rng.choice(OPS_RESAVE) for _ in range(rng.randrange(0, 4))] + [('get',)])
     for h in hs:
         if run_history(h, paths, cache, r, ctx.workdir):
             r.nt(('hist', repr(h)))
